@@ -283,8 +283,21 @@ fn run_c11(job: &Value) -> Value {
     let start = job["start_idx"].as_u64().unwrap_or(0) as usize;
     let dup = job["dup"].as_bool().unwrap_or(false);
     let mut files = serde_json::Map::new();
+    let removed: Vec<u64> = job["remove"].as_array().map(|a| a.iter().filter_map(Value::as_u64).collect()).unwrap_or_default();
     for i in 0..n {
-        files.insert(format!("f{i}.xsd"), json!(c11_render(n, mask, i, dup)));
+        if removed.contains(&(i as u64)) {
+            continue;
+        }
+        let content = match job["replace"].get(i.to_string()).and_then(Value::as_str) {
+            Some(c) => c.to_string(),
+            None => c11_render(n, mask, i, dup),
+        };
+        files.insert(format!("f{i}.xsd"), json!(content));
+    }
+    if let Some(extra) = job["extra"].as_object() {
+        for (k, v) in extra {
+            files.insert(k.clone(), v.clone());
+        }
     }
     let j2 = json!({"files": files, "start": format!("f{start}.xsd"), "want_structs": true});
     run_gen(&j2)
